@@ -85,22 +85,23 @@ Definition agree (s : sst) (d : dbst) : Prop :=
 Ltac bools := repeat match goal with b : bool |- _ => destruct b end.
 
 (* strict legality of everything one autocommit branch issues, on a free session *)
-Lemma auto_local_legal detach slow fS fM fE fE2 fP fR fR2 :
-  (fE = true -> fE2 = false) ->
-  let '(t, d, kept, o, act) := auto_local detach false slow fS fM fE fE2 fP fR fR2 in
+Lemma auto_local_legal detach slow fS fM fE rE fE2 rE2 fP fR fR2 :
+  (rE = false -> fE = true -> fE2 = false \/ rE2 = true) ->
+  let '(t, d, kept, o, act) := auto_local detach false slow fS fM fE rE fE2 rE2 fP fR fR2 in
   exists s, legal_from S0 t = Some s /\ agree s d /\ (is_prepared d = true -> kept = true).
 Proof.
-  intro H. destruct fE; [rewrite (H eq_refl)|]; bools; cbn; eexists; (split; [reflexivity|]); cbn; auto.
+  intro H. bools; cbn; try (eexists; (split; [reflexivity|]); cbn; auto; fail);
+    exfalso; destruct (H eq_refl eq_refl); discriminate.
 Qed.
 
-Lemma auto_local_accepted detach busy slow fS fM fE fE2 fP fR fR2 :
-  let '(t, d, kept, o, act) := auto_local detach busy slow fS fM fE fE2 fP fR fR2 in
+Lemma auto_local_accepted detach busy slow fS fM fE rE fE2 rE2 fP fR fR2 :
+  let '(t, d, kept, o, act) := auto_local detach busy slow fS fM fE rE fE2 rE2 fP fR fR2 in
   exists s, accepted_from S0 t = Some s /\ agree s d.
 Proof. bools; cbn; eexists; (split; [reflexivity|]); cbn; auto. Qed.
 
 (* C17_failure on one branch: every fault combination, both server families, free or busy session *)
-Lemma auto_local_failure detach busy slow fS fM fE fE2 fP fR fR2 :
-  let '(t, d, kept, o, act) := auto_local detach busy slow fS fM fE fE2 fP fR fR2 in
+Lemma auto_local_failure detach busy slow fS fM fE rE fE2 rE2 fP fR fR2 :
+  let '(t, d, kept, o, act) := auto_local detach busy slow fS fM fE rE fE2 rE2 fP fR fR2 in
   (o = OOk \/ o = OErr) /\
   ~ In (COMMIT, ROk) t /\
   (* truthful outcome (the timeout's own rollback not made to fail): success exactly when the branch is
@@ -109,20 +110,22 @@ Lemma auto_local_failure detach busy slow fS fM fE fE2 fP fR fR2 :
      (o = OOk <-> is_prepared d = true) /\
      (o = OOk -> t = [(START, ROk); (STMT, ROk); (END_, ROk); (PREPARE, ROk)])) /\
   (* any failure before a successful PREPARE (a busy session and a timeout included): an error is returned *)
-  ((slow = true -> fR = false) -> (busy || slow || fS || fM || fE || fP) = true -> o = OErr) /\
-  (* and, unless a compensating command is made to fail too, the branch is rolled back or never started *)
-  ((busy || slow || fS || fM || fE || fP) = true -> fR = false -> (fE = true -> fE2 = false) -> (fM = true -> fE = false) ->
+  ((slow = true -> fR = false) -> (busy || slow || fS || fM || fE || rE || fP) = true -> o = OErr) /\
+  (* and, unless a compensating command is made to fail too, the branch is rolled back or never started;
+     a rollback-only branch at XA END (rE) is a failure like any other: it IS rolled back *)
+  ((busy || slow || fS || fM || fE || rE || fP) = true -> fR = false -> (rE = false -> fE = true -> fE2 = false \/ rE2 = true) ->
+   (fM = true -> fE = false /\ rE = false) ->
      d = None /\ (fS = true \/ busy = true \/ In (ROLLBACK, ROk) t)).
 Proof.
   bools; cbn; repeat split; auto; try discriminate; try (intros; discriminate);
     try (intros [H|H]; discriminate H); intros;
     repeat match goal with H : ?a = ?a -> _ |- _ => specialize (H eq_refl) end;
-    try discriminate; intuition (try discriminate; auto).
+    try discriminate; intuition (try discriminate; auto 10).
 Qed.
 
 (* the branch-timeout path: a timed-out branch returns an error to the caller and is rolled back *)
-Lemma auto_local_timeout detach fE2 fP fR2 :
-  let '(t, d, kept, o, act) := auto_local detach false true false false false fE2 fP false fR2 in
+Lemma auto_local_timeout detach fE2 rE2 fP fR2 :
+  let '(t, d, kept, o, act) := auto_local detach false true false false false false fE2 rE2 fP false fR2 in
   o = OErr /\ d = None /\ kept = false /\ act = false /\
   exists r, t = [(START, ROk); (STMT, ROk); (END_, ROk); (ROLLBACK, ROk); (ROLLBACK, r)] /\ r <> ROk.
 Proof. bools; cbn; repeat split; auto; eexists; split; try reflexivity; discriminate. Qed.
@@ -131,12 +134,12 @@ Proof. bools; cbn; repeat split; auto; eexists; split; try reflexivity; discrimi
    to fail, success is reported for a branch that the second XA ROLLBACK rolled back *)
 Lemma auto_local_timeout_refuted :
   exists detach fE2 fP,
-    let '(t, d, kept, o, act) := auto_local detach false true false false false fE2 fP true false in
+    let '(t, d, kept, o, act) := auto_local detach false true false false false false fE2 false fP true false in
     o = OOk /\ is_prepared d = false /\ In (ROLLBACK, ROk) t.
 Proof. exists false, false, false. cbn. repeat split; auto 10. Qed.
 
-Lemma auto_local_sfail detach busy slow fS fM fE fE2 fP fR fR2 :
-  let '(t, d, kept, o, act) := auto_local detach busy slow fS fM fE fE2 fP fR fR2 in
+Lemma auto_local_sfail detach busy slow fS fM fE rE fE2 rE2 fP fR fR2 :
+  let '(t, d, kept, o, act) := auto_local detach busy slow fS fM fE rE fE2 rE2 fP fR fR2 in
   start_ok t = false -> d = None /\ o = OErr.
 Proof. bools; cbn; auto; discriminate. Qed.
 
@@ -185,7 +188,7 @@ Lemma accepted_from_app t1 : forall s t2,
   accepted_from s (t1 ++ t2) = match accepted_from s t1 with Some s' => accepted_from s' t2 | None => None end.
 Proof.
   induction t1 as [|[c r] t1 IH]; intros s t2; cbn; [reflexivity|].
-  destruct r; auto. destruct (sstep s c); auto.
+  destruct (acc c r); auto. destruct (sstep s c); auto.
 Qed.
 
 Lemma cmds_of_emit_same conn id t :
@@ -424,10 +427,11 @@ Proof.
     set (s1 := add_ev (bump_reg sp) (EReg xid true b)).
     pose proof (auto_local_accepted (e_detach E) (busy_on (s_brs s1) conn (s_nop s1)) slow
                   (e_fault E START (s_cnt s1 START)) (e_fault E STMT (s_cnt s1 STMT))
-                  (e_fault E END_ (s_cnt s1 END_)) (e_fault E END_ (S (s_cnt s1 END_)))
+                  (e_fault E END_ (s_cnt s1 END_)) (e_frb E (s_cnt s1 END_)) (e_fault E END_ (S (s_cnt s1 END_)))
+                  (e_frb E (S (s_cnt s1 END_)))
                   (e_fault E PREPARE (s_cnt s1 PREPARE)) (e_fault E ROLLBACK (s_cnt s1 ROLLBACK))
                   (e_fault E ROLLBACK (S (s_cnt s1 ROLLBACK)))) as L.
-    destruct (auto_local _ _ _ _ _ _ _ _ _ _) as [[[[t d] kept] o] act].
+    destruct (auto_local _ _ _ _ _ _ _ _ _ _ _ _) as [[[[t d] kept] o] act].
     destruct L as (q & Lq & Aq).
     set (id := xa_id xid b).
     destruct Ip as [I1 I2 I3 I4 I5 I6].
@@ -550,10 +554,14 @@ Qed.
 
 Lemma step_inv s o : Inv E s -> Inv E (step E s o).
 Proof.
-  destruct o; cbn [step]; [apply step_auto|apply step_local|apply step_p2| | |apply do_check_inv|apply step_skip].
+  destruct o; cbn [step]; [apply step_auto|apply step_local|apply step_p2| | | |apply do_check_inv|apply step_skip].
   - destruct (s_out s) as [|[] ?]; try now apply step_skip. now apply step_auto.
   - destruct (lookup target (s_opconn s)); [|now apply step_skip].
     destruct (existsb _ _); [now apply step_skip|]. intro I. apply step_skip. now apply retire_inv.
+  - destruct (find_br target (s_brs s)); [|now apply step_skip].
+    destruct (is_prepared _ && _); [|now apply step_skip]. intro I. apply step_skip.
+    apply (inv_brs_map s _ (fun y => if Nat.eqb (r_op y) target then unkeep y else y)); auto.
+    intro y. destruct (Nat.eqb (r_op y) target); cbn; auto.
 Qed.
 
 Lemma run_inv_from p : forall s, Inv E s -> Inv E (fold_left (step E) p s).
@@ -590,10 +598,10 @@ Proof.
   induction t as [|[c r] t IH]; intros s q A H; [destruct H|].
   cbn in A. destruct H as [H|H].
   - injection H as -> ->. destruct s; cbn in A; try discriminate. now left.
-  - destruct r; try (destruct (IH _ _ A H); [now left | right; now right]).
+  - destruct (acc c r) eqn:Ar; [|destruct (IH _ _ A H); [now left | right; now right]].
     destruct (sstep s c) as [s'|] eqn:S; [|discriminate].
     destruct (IH _ _ A H) as [->|X]; [|right; now right].
-    destruct s, c; cbn in S; try discriminate. right. now left.
+    destruct s, c; cbn in S; try discriminate. destruct r; try discriminate Ar. right. now left.
 Qed.
 
 Theorem commit_needs_prepare E p id :
@@ -621,8 +629,8 @@ Proof.
   cbn in H. destruct c; cbn in *; try discriminate; auto.
 Qed.
 
-Lemma auto_local_shape detach busy slow fS fM fE fE2 fP fR fR2 :
-  let '(t, _, _, _, _) := auto_local detach busy slow fS fM fE fE2 fP fR fR2 in
+Lemma auto_local_shape detach busy slow fS fM fE rE fE2 rE2 fP fR fR2 :
+  let '(t, _, _, _, _) := auto_local detach busy slow fS fM fE rE fE2 rE2 fP fR fR2 in
   exists r1 rest, t = (START, r1) :: rest /\ count_cmd START rest = 0%nat.
 Proof. bools; cbn; eexists; eexists; split; reflexivity. Qed.
 
@@ -662,14 +670,14 @@ Proof.
     + set (s1 := add_ev (bump_reg sp) (EReg (e_xid E g) true (e_bid E (s_nreg s)))).
       pose proof (auto_local_shape (e_detach E) (busy_on (s_brs s1) conn (s_nop s1)) slow
         (e_fault E START (s_cnt s1 START)) (e_fault E STMT (s_cnt s1 STMT)) (e_fault E END_ (s_cnt s1 END_))
-        (e_fault E END_ (S (s_cnt s1 END_))) (e_fault E PREPARE (s_cnt s1 PREPARE))
+        (e_frb E (s_cnt s1 END_)) (e_fault E END_ (S (s_cnt s1 END_))) (e_frb E (S (s_cnt s1 END_))) (e_fault E PREPARE (s_cnt s1 PREPARE))
         (e_fault E ROLLBACK (s_cnt s1 ROLLBACK)) (e_fault E ROLLBACK (S (s_cnt s1 ROLLBACK)))) as L.
-      destruct (auto_local _ _ _ _ _ _ _ _ _ _) as [[[[t d] kept] oo] act]. destruct L as (r1 & rest & -> & Hc).
+      destruct (auto_local _ _ _ _ _ _ _ _ _ _ _ _) as [[[[t d] kept] oo] act]. destruct L as (r1 & rest & -> & Hc).
       subst s1. cbn [finish set_brs set_conn emit add_ev bump_reg s_jour]. rewrite Jp.
       rewrite rev_app_distr, rev_involutive. cbn [List.rev map fst snd].
       rewrite <- app_assoc, reg_scan_app. rewrite H. rewrite <- app_comm_cons, app_nil_l, reg_scan_reg, reg_scan_start.
       now apply reg_scan_nostart. }
-  destruct o as [g via slow| |t c x|g slow|t|e|]; cbn [step].
+  destruct o as [g via slow| |t c x|g slow|t|t|e|]; cbn [step].
   - apply AU.
   - unfold do_local. apply PB. cbn [finish emit set_opconn bump_conn s_jour]. apply reg_emit; [reflexivity|exact H].
   - unfold do_p2. destruct (find_br t (s_brs s)) as [r|]; [|exact H].
@@ -693,6 +701,7 @@ Proof.
   - destruct (s_out s) as [|[] ?]; try exact H. apply AU.
   - destruct (lookup t (s_opconn s)); [|exact H]. destruct (existsb _ _); [exact H|].
     cbn [finish s_jour]. unfold retire_conn. destruct (existsb _ _); exact H.
+  - destruct (find_br t (s_brs s)); [|exact H]. destruct (is_prepared _ && _); exact H.
   - unfold do_check. destruct (e_detach E); [|exact H]. cbn [finish s_jour].
     now rewrite fold_force_jour.
   - exact H.
